@@ -10,7 +10,7 @@ T: corpus files and seeded random layouts: hook events of every Lexer::next call
 """
 from checks import lexcommon as lx
 
-ALPHABETS = ["layout", "ops", "nums", "strs", "uni"]
+ALPHABETS = ["layout", "ops", "nums", "strs", "uni", "unicomment"]
 
 
 def run(ctx):
@@ -49,7 +49,8 @@ def random_layouts(ctx, n):
     rng = ctx.rng
     out = []
     lines = ["x = 1", "if a:", "def f(b, c=2):", "return (a,\n   b)", "y = [1,\n\t2]", "# comment", "", "pass", "z = 'str' \\\n  'cont'",
-             "while q: w()", "é = 'ü'", "class K:", "\"\"\"doc\nstring\"\"\"", "t = {1: 2,\n\n 3: 4}", "u = 0x1F + 1_0.5e-3j", "v = a if b else c # c"]
+             "while q: w()", "é = 'ü'", "class K:", "\"\"\"doc\nstring\"\"\"", "t = {1: 2,\n\n 3: 4}", "u = 0x1F + 1_0.5e-3j", "v = a if b else c # c",
+             "# c\u00f6mment \u2713 \U0001f600", "w = 1  # \u00e9\u4e2d", "s = '\u00e9'  # \u2192 x", "r = [  # \u4e2d\u6587\n 1]"]
     for _ in range(n):
         depth = 0
         src = ""
